@@ -48,6 +48,20 @@ def checkRec (pre post : Snap) (k now a i : Nat) : Option String :=
     | some o, some n => if n.active == o.active && n.inactive == now + i then none else some "refresh-deadlines"
     | _, none => some "flow-not-queued"
 
+/-- nothing that touches the schedule happened between two snapshots: the clock advanced, a dump or the
+    advertised expiry was asked for - or a record was REFUSED (AggregateMsgByFlowKey returned an error:
+    the record's template lacks an element the aggregation is configured with). A refused record of a
+    held flow does not count as a sign of life - no deadline moves, no item changes - and a record
+    refused at the creation of a flow creates none: the same keys are held, the flow count is what it
+    was, and every item has the deadlines, the readiness and the retry count it had -/
+def checkIdle (pre post : Snap) : Option String :=
+  if sortKeys pre.held != sortKeys post.held then some "held-keys-changed"
+  else if pre.nflows != post.nflows then some "nflows-changed"
+  else if pre.queue.length != post.queue.length then some "queue-length-changed"
+  else match pre.queue.find? (fun it => findItem post.queue it.key != some it) with
+    | some it => some s!"item-changed {it.key}"
+    | none => none
+
 /-- an expiry scan at `now`: `cbs` = keys handed to the callback in order, `failed` = the scan was
     aborted by the callback on the last of them -/
 def checkScan (pre post : Snap) (now a i : Nat) (cbs : List Nat) (failed : Bool) : Option String :=
